@@ -524,8 +524,18 @@ def check_sij(run, pkg, coarse):
                  ("call", ".sum", (("cmp", ">", S_arr, ("sym", "c")),), (("axis", C(1)),))]
         okc = eqv(v, *forms, same=True)
         ge = any(x[0] == "cmp" and x[1] in (">=", "<", "<=") for x in walk(v))
+        if okc is not True:
+            # the thresholded array is a column slice of the s_ij table that does not start at column 0: the table has no count
+            # column (slot k is bond k), so the first bond(s) are left out
+            for x in walk(v):
+                if x[0] == "cmp" and x[1] == ">" and x[2][0] == "sub" and x[2][1] == S_arr and x[2][2][0] == "tuple" and len(x[2][2][1]) == 2:
+                    col = x[2][2][1][1]
+                    if col[0] == "slice" and is_const(col[1]) and isinstance(col[1][1], int) and col[1][1] > 0:
+                        okc = False
+                        ge = None
+                        break
         run.ob("R-CMP", fq, f"{tag}:count", okc, "column 1 counts the bonds with s_ij > c (strict)", show(v)[:90],
-               witness=None if okc else ("boundary/direction of the threshold changed" if ge else "count is not over s_ij > c"), loc=loc_of(it, cnt[0]), sound=True)
+               witness=None if okc else ("boundary/direction of the threshold changed" if ge else ("the count skips the first column(s) of the s_ij table: the first listed bond is never counted" if ge is None else "count is not over s_ij > c")), loc=loc_of(it, cnt[0]), sound=True)
     else:
         run.ob("R-CMP", fq, f"{tag}:count", None, "thresholded count found", f"{len(cnt)} stores", loc=fi.loc())
     ids = [e for e in stores(it) if e.data["target"][2] == ("tuple", (FULL, C(0)))]
